@@ -10,6 +10,7 @@ import (
 	"os"
 	"path/filepath"
 	"runtime"
+	"sort"
 	"sync"
 
 	"github.com/makiuchi-d/gozxing"
@@ -36,6 +37,92 @@ type Job struct {
 	Content string
 	Scale   int
 	Photo   int // >= 0: index into Photos (Aztec decode), Format/Content unused
+	Addon   string // UPC/EAN only: digits of an EAN-2 / EAN-5 add-on drawn to the right of the symbol ("" = none)
+	Multi   bool   // read with the worker's multi-format reader instead of the symbology's own reader
+}
+
+// ---- EAN-2 / EAN-5 add-on symbols (ISO/IEC 15420, 4.3): start 1011, digits in set A (L) or B (G), separated by 01 ----
+var setA = []string{"0001101", "0011001", "0010011", "0111101", "0100011", "0110001", "0101111", "0111011", "0110111", "0001011"}
+var ean5Parity = []string{"GGLLL", "GLGLL", "GLLGL", "GLLLG", "LGGLL", "LLGGL", "LLLGG", "LGLGL", "LGLLG", "LLGLG"}
+
+func setB(d int) string { // set B = mirrored complement of set A
+	a := setA[d]
+	b := make([]byte, 7)
+	for i := 0; i < 7; i++ {
+		b[i] = '0' + ('1' - a[6-i])
+	}
+	return string(b)
+}
+
+func addonModules(ds string) string {
+	var par string
+	if len(ds) == 2 {
+		par = []string{"LL", "LG", "GL", "GG"}[(int(ds[0]-'0')*10+int(ds[1]-'0'))%4]
+	} else {
+		sum := 0
+		for i := 0; i < 5; i++ {
+			w := 3
+			if i%2 == 1 {
+				w = 9
+			}
+			sum += w * int(ds[i]-'0')
+		}
+		par = ean5Parity[sum%10]
+	}
+	out := "1011"
+	for i := range ds {
+		if i > 0 {
+			out += "01"
+		}
+		if par[i] == 'G' {
+			out += setB(int(ds[i] - '0'))
+		} else {
+			out += setA[ds[i]-'0']
+		}
+	}
+	return out
+}
+
+func withAddon(m *gozxing.BitMatrix, ds string) *gozxing.BitMatrix {
+	add := addonModules(ds)
+	gap := 9
+	n, _ := gozxing.NewBitMatrix(m.GetWidth()+gap+len(add)+10, m.GetHeight())
+	for y := 0; y < m.GetHeight(); y++ {
+		for x := 0; x < m.GetWidth(); x++ {
+			if m.Get(x, y) {
+				n.Set(x, y)
+			}
+		}
+		for i := range add {
+			if add[i] == '1' {
+				n.Set(m.GetWidth()+gap+i, y)
+			}
+		}
+	}
+	return n
+}
+
+func isUPCEAN(f gozxing.BarcodeFormat) bool {
+	return f == gozxing.BarcodeFormat_EAN_13 || f == gozxing.BarcodeFormat_EAN_8 || f == gozxing.BarcodeFormat_UPC_A || f == gozxing.BarcodeFormat_UPC_E
+}
+
+func is1D(f gozxing.BarcodeFormat) bool {
+	return f != gozxing.BarcodeFormat_QR_CODE && f != gozxing.BarcodeFormat_DATA_MATRIX
+}
+
+// metaString renders the result metadata in a canonical order (values are strings, ints or byte segments).
+func metaString(res *gozxing.Result) string {
+	md := res.GetResultMetadata()
+	keys := make([]int, 0, len(md))
+	for k := range md {
+		keys = append(keys, int(k))
+	}
+	sort.Ints(keys)
+	out := ""
+	for _, k := range keys {
+		out += fmt.Sprintf(" %v=%v", gozxing.ResultMetadataType(k), md[gozxing.ResultMetadataType(k)])
+	}
+	return out
 }
 
 var Formats = []gozxing.BarcodeFormat{
@@ -152,7 +239,14 @@ func Jobs(seed uint64, n int) []Job {
 			continue
 		}
 		f := Formats[k]
-		jobs = append(jobs, Job{Format: f, Content: Content(r, f), Scale: 1 + r.intn(3), Photo: -1})
+		j := Job{Format: f, Content: Content(r, f), Scale: 1 + r.intn(3), Photo: -1}
+		if isUPCEAN(f) && r.intn(3) != 0 {
+			j.Addon = digits(r, []int{2, 5, 5}[r.intn(3)])
+		}
+		if isUPCEAN(f) && r.intn(4) == 0 {
+			j.Multi = true
+		}
+		jobs = append(jobs, j)
 	}
 	return jobs
 }
@@ -162,6 +256,7 @@ type Worker struct {
 	writers map[gozxing.BarcodeFormat]gozxing.Writer
 	readers map[gozxing.BarcodeFormat]gozxing.Reader
 	aztec   gozxing.Reader
+	multi1D gozxing.Reader // MultiFormatUPCEANReader: owns one reader of each UPC/EAN symbology
 }
 
 func NewWorker() *Worker {
@@ -189,6 +284,7 @@ func NewWorker() *Worker {
 	w.readers[gozxing.BarcodeFormat_UPC_A] = oned.NewUPCAReader()
 	w.readers[gozxing.BarcodeFormat_UPC_E] = oned.NewUPCEReader()
 	w.aztec = aztec.NewAztecReader()
+	w.multi1D = oned.NewMultiFormatUPCEANReader(nil)
 	return w
 }
 
@@ -253,16 +349,29 @@ func (w *Worker) Run(j Job) (out string) {
 	if err != nil {
 		return "write-err:" + err.Error()
 	}
+	if j.Addon != "" {
+		m = withAddon(m, j.Addon)
+	}
 	img := render(m, j.Scale)
 	bmp, err := gozxing.NewBinaryBitmapFromImage(img)
 	if err != nil {
 		return "bitmap-error"
 	}
-	res, err := w.readers[j.Format].Decode(bmp, nil)
+	rd := w.readers[j.Format]
+	if j.Multi {
+		rd = w.multi1D
+	}
+	res, err := rd.Decode(bmp, nil)
 	if err != nil {
 		return fmt.Sprintf("%v m=%x read-err:%s", j.Format, hashMatrix(m), err.Error())
 	}
-	return fmt.Sprintf("%v m=%x text=%q", j.Format, hashMatrix(m), res.GetText())
+	pts := ""
+	for _, p := range res.GetResultPoints() {
+		if p != nil {
+			pts += fmt.Sprintf("(%.1f,%.1f)", p.GetX(), p.GetY())
+		}
+	}
+	return fmt.Sprintf("%v m=%x text=%q fmt=%v meta=[%s] pts=%s", j.Format, hashMatrix(m), res.GetText(), res.GetBarcodeFormat(), metaString(res), pts)
 }
 
 // Sequential is the reference: one worker, one goroutine.
